@@ -1,6 +1,9 @@
 import Sismic.Proofs.Edit
 import Sismic.Proofs.EditInv
 import Sismic.Proofs.EditTree
+import Sismic.Proofs.EditRefs
+import Sismic.Proofs.EditValid
+import Sismic.Props.C02
 /-!
 # Property C16 — structural editing keeps a statechart sound; failed edits change nothing
 
@@ -16,9 +19,16 @@ raise, and for every sequence of them starting from an empty `Statechart` — pr
 (`TransOK`, the part of validity that makes `Interpreter` lookups total) and of the mutual
 consistency of the three dictionaries `_states`, `_parent`, `_children` (`Tidy`: no duplicate
 keys, keys are exactly the states, `x ∈ children(p) ⇔ parent(x) = p`, no repetition among
-children, at most one root, nobody is its own parent).  Acyclicity of the parent relation beyond
-"nobody is its own parent" and `validate()` after each edit are decided by the tie only
-(DESIGN.md §7).
+children, at most one root, nobody is its own parent), and of "no `initial` of a compound state
+and no `memory` of a history state dangles" (`RefsOK`: `remove_state` with its cascade,
+`move_state` and `rename_state` reset or rewrite the references; `add_state` is the one way to
+bring a dangling reference in, and does so only if the client hands it one), and of
+**`validate()` itself**: on a statechart with consistent dictionaries `validate()` passes iff every
+`initial` is a child of its compound state and every `memory` another child of the history state's
+parent (`validate_iff`), and `remove_state` (cascade included, also when it raises half-way),
+`move_state`, `rename_state`, the transition operations, and `add_state` of a state without
+`initial` / `memory` keep that true — so does every session of them.  Acyclicity of the parent
+relation beyond "nobody is its own parent" is decided by the tie only (DESIGN.md §7).
 -/
 namespace Sismic.C16
 open Sismic.Chart
@@ -129,5 +139,67 @@ theorem any_edit_session_keeps_dictionaries_consistent (ops : List EditOp) (c : 
 theorem built_charts_have_consistent_dictionaries (nm : String) (ops : List EditOp) :
     Tidy (({ name := nm, children := [(none, [])] } : Chart).applyEdits ops) :=
   applyEdits_tidy ops _ (empty_tidy nm)
+
+/-! ### no `initial` / `memory` reference dangles -/
+
+/-- **`remove_state` leaves no dangling reference** — the `initial` / `memory` that named the removed
+    state or one of its descendants are reset; also when the recursive removal raises half-way. -/
+theorem no_reference_dangles_after_remove (c : Chart) (n : Name) (hc : c.RefsOK) : (c.removeState n).2.RefsOK :=
+  removeState_refsOK c n hc
+
+/-- `move_state` resets the references to the moved state and touches no other -/
+theorem no_reference_dangles_after_move (c : Chart) (a b : Name) (hc : c.RefsOK) (h : (c.moveState a b).1 = .ok ()) :
+    (c.moveState a b).2.RefsOK := moveState_refsOK c a b hc h
+
+/-- `rename_state` rewrites the references along with the name -/
+theorem no_reference_dangles_after_rename (c : Chart) (a b : Name) (hc : c.RefsOK) (h : (c.renameState a b).1 = .ok ()) :
+    (c.renameState a b).2.RefsOK := renameState_refsOK c a b hc h
+
+/-- `add_state` breaks no reference, and brings in those of the new state only -/
+theorem no_reference_dangles_after_add (c : Chart) (s : StateDef) (p : Option Name) (hc : c.RefsOK)
+    (hs : c.StateRefsIn s) (h : (c.addState s p).1 = .ok ()) : (c.addState s p).2.RefsOK :=
+  addState_refsOK c s p hc hs h
+
+/-- **Whatever a client does with the editing API** — any sequence of the seven operations, each
+    succeeding or raising — **no `initial` and no `memory` dangles**, as long as the states handed to
+    `add_state` refer to states that exist when they are added (or to themselves). -/
+theorem any_edit_session_leaves_no_dangling_reference (ops : List EditOp) (c : Chart) (hc : c.RefsOK)
+    (hops : c.SessionRefsIn ops) : (c.applyEdits ops).RefsOK := applyEdits_refsOK ops c hc hops
+
+/-! ### `validate()` still passes -/
+
+/-- what `validate()` means on a statechart with consistent dictionaries -/
+theorem validate_means (c : Chart) (ht : Tidy c) : c.validate = true ↔ c.SoundRefs := validate_iff c ht
+
+/-- **`remove_state` on a valid statechart leaves a valid statechart** — whatever it removed, and
+    also when the recursive removal raised half-way. -/
+theorem validate_passes_after_remove (c : Chart) (n : Name) (ht : Tidy c) (hv : c.validate = true) :
+    (c.removeState n).2.validate = true := removeState_validate c n ht hv
+
+theorem validate_passes_after_move (c : Chart) (a b : Name) (ht : Tidy c) (hv : c.validate = true)
+    (h : (c.moveState a b).1 = .ok ()) : (c.moveState a b).2.validate = true := moveState_validate c a b ht hv h
+
+theorem validate_passes_after_rename (c : Chart) (a b : Name) (ht : Tidy c) (hv : c.validate = true)
+    (h : (c.renameState a b).1 = .ok ()) : (c.renameState a b).2.validate = true := renameState_validate c a b ht hv h
+
+/-- `add_state` of a state whose `initial` / `memory` is not set yet -/
+theorem validate_passes_after_add (c : Chart) (s : StateDef) (p : Option Name) (ht : Tidy c) (hv : c.validate = true)
+    (hb : s.Bare) (h : (c.addState s p).1 = .ok ()) : (c.addState s p).2.validate = true :=
+  addState_validate c s p ht hv hb h
+
+/-- **Whatever a client does with the editing API** to a valid statechart — any sequence of the seven
+    operations, each succeeding or raising, the added states coming without `initial` / `memory` —
+    **`validate()` passes afterwards.** -/
+theorem any_edit_session_keeps_validate_passing (ops : List EditOp) (c : Chart) (ht : Tidy c) (hv : c.validate = true)
+    (hops : ∀ op ∈ ops, op.Bare) : (c.applyEdits ops).validate = true := applyEdits_validate ops c ht hv hops
+
+/-! non-vacuity: the example statechart of C02 is tidy and valid -/
+example : Tidy C02.exChart ∧ C02.exChart.validate = true :=
+  ⟨tidy_of_wf _ (wfB_sound _ (by decide)) (by decide), by decide⟩
+
+/-! non-vacuity: the example statechart of C02 (compound states with `initial`, a history state with
+`memory`) has no dangling reference; removing the remembered state and moving its sibling is a session that qualifies -/
+example : C02.exChart.RefsOK := refsOKB_sound _ (by decide)
+example : C02.exChart.SessionRefsIn [.removeState "x", .moveState "y" "p2"] := ⟨trivial, trivial, trivial⟩
 
 end Sismic.C16
